@@ -65,7 +65,11 @@ def confirm(seed_dir, jobs):
         out["demo_exit_clean"] = d0.returncode
         a = sh(["git", "-C", wt, "apply", os.path.join(seed_dir, "patch.diff")])
         if a.returncode:
-            out["error"] = "patch does not apply: " + a.stderr[-300:]
+            # written against an older commit: context lines have moved; `patch -p1` (what seeded_eval uses) tolerates that
+            a = sh(["patch", "-p1", "-s", "-i", os.path.join(seed_dir, "patch.diff")], cwd=wt)
+            out["how"] = out["how"].replace("`git apply`", "`patch -p1` (offsets/fuzz: the patch was written against an earlier commit)")
+        if a.returncode:
+            out["error"] = "patch does not apply: " + (a.stdout + a.stderr)[-300:]
             return out
         d1 = sh([PY, os.path.join(seed_dir, "demo.py")], env=env, cwd=wt, timeout=300)
         out["demo_exit_patched"] = d1.returncode
